@@ -22,13 +22,19 @@ fn shim_clone_sk(sk: &Sm2PrivateKey) -> (r: Sm2PrivateKey) ensures r == *sk { sk
 fn shim_ne32(a: &[u8; 32], b: &[u8; 32]) -> (r: bool) ensures r == !(a@ =~= b@) { a != b }
 // ---------------- GB/T 32918.3: key agreement, w = 127 ----------------
 pub open spec fn pow127() -> int { 0x8000_0000_0000_0000int * 0x1_0000_0000_0000_0000int }
+#[verifier::opaque]
 pub open spec fn xbar(x: int) -> int { pow127() + x % pow127() }
 // t = (d + x-bar * r) mod n for the own ephemeral point
+#[verifier::opaque]
 pub open spec fn ex_t(d: int, r: int, r_own: Pt) -> int { (d + (r * xbar(pt_x(r_own))) % N()) % N() }
 // shared point [t](P_peer + [x-bar_peer] R_peer)   (cofactor h = 1)
+#[verifier::opaque]
 pub open spec fn ex_point(t: int, p_peer: Pt, r_peer: Pt) -> Pt { g_smul(t, g_add(p_peer, g_smul(xbar(pt_x(r_peer)), r_peer))) }
+#[verifier::opaque]
 pub open spec fn ex_key(v: Pt, za: Seq<u8>, zb: Seq<u8>, klen: nat) -> Seq<u8> { s_kdf(xy_bytes(v) + za + zb, klen) }
+#[verifier::opaque]
 pub open spec fn ex_inner(v: Pt, za: Seq<u8>, zb: Seq<u8>, ra: Pt, rb: Pt) -> Seq<u8> { sm3_spec(be_bytes(pt_x(v), 32) + za + zb + xy_bytes(ra) + xy_bytes(rb)) }
+#[verifier::opaque]
 pub open spec fn ex_conf(tag: u8, v: Pt, inner: Seq<u8>) -> Seq<u8> { sm3_spec(seq![tag] + be_bytes(pt_y(v), 32) + inner) }
 pub proof fn ex_lemma_lens(q: Pt)
     ensures be_bytes(pt_x(q), 32).len() == 32, be_bytes(pt_y(q), 32).len() == 32, xy_bytes(q).len() == 64
@@ -157,6 +163,136 @@ struct Sm2PrivateKey {
     public_key: Sm2PublicKey,
 }
 //@stub sm2_key Sm2PublicKey::value
+//@stub sm2_key gen_keypair
+//@section spec local
+// ---------------- fail-fast structure of exchange_2 / exchange_3 / exchange_4 ----------------
+// The protocol functions carry only these opaque stage predicates (booleans over limb vectors, points and byte strings) from
+// statement to statement; every value-level fact (x-bar, t, the shared point, the byte layouts) is produced and consumed inside
+// the stage lemmas below, so that a wrong program fails at the `requires` of the stage it breaks. The protocol vocabulary of the
+// contracts (xbar, ex_t, ex_point, ex_key, ex_inner, ex_conf) is opaque for the same reason: the solver never has to build a
+// model of the group law or of the byte strings while it checks a protocol function.
+// exchange_2/3/4 start with `hide(..)` headers for the shared mathematical vocabulary (val4, fe, abs_pt, on_curve, g_smul, g_add,
+// inv_p, pow_mod, be_bytes, s_kdf, xy_bytes, pt_x, pt_y): their bodies need none of these definitions (every value-level step is a
+// stage lemma), and an unfolded definition costs the solver thousands of interface equalities between limbs / partial sums when it
+// has to build a counter-model (false obligations then end in rlimit instead of a failure). `reveal(val4)` appears only in the
+// by-block of the 2^127 literal; the x-bar by-blocks must NOT reveal it.
+// affine coordinates (x, y) of a finite point
+#[verifier::opaque]
+spec fn ex_xy(p: Point, x: Seq<u64>, y: Seq<u64>) -> bool { abs(p) == (Pt::Aff { x: val4(x), y: val4(y) }) }
+// xb = 2^127 + (x mod 2^127)
+#[verifier::opaque]
+spec fn ex_is_xbar(xb: Seq<u64>, x: Seq<u64>) -> bool { val4(xb) == xbar(val4(x)) }
+// t = (d + xb * r) mod n
+#[verifier::opaque]
+spec fn ex_is_t(t: Seq<u64>, d: Seq<u64>, r: Seq<u64>, xb: Seq<u64>) -> bool { val4(t) == (val4(d) + (val4(r) * val4(xb)) % N()) % N() }
+// v is the shared point computed from the own (d, r, R_own) and the peer's (P_peer, R_peer)
+#[verifier::opaque]
+spec fn ex_is_shared(v: Point, d: Seq<u64>, r: Seq<u64>, own: Point, pk: Point, peer: Point) -> bool {
+    abs(v) == ex_point(ex_t(val4(d), val4(r), abs(own)), abs(pk), abs(peer))
+}
+// big-endian coordinate strings of v
+#[verifier::opaque]
+spec fn ex_vb(v: Point, xb: Seq<u8>, yb: Seq<u8>) -> bool { xb == be_bytes(pt_x(abs(v)), 32) && yb == be_bytes(pt_y(abs(v)), 32) }
+// kin = xV || yV || za || zb
+#[verifier::opaque]
+spec fn ex_is_kin(kin: Seq<u8>, v: Point, za: Seq<u8>, zb: Seq<u8>) -> bool { kin == xy_bytes(abs(v)) + za + zb }
+// k = KDF(xV || yV || za || zb, klen)
+#[verifier::opaque]
+spec fn ex_is_key(k: Seq<u8>, v: Point, za: Seq<u8>, zb: Seq<u8>, klen: nat) -> bool { k == s_kdf(xy_bytes(abs(v)) + za + zb, klen) }
+// tin = xV || za || zb || x1 || y1 || x2 || y2
+#[verifier::opaque]
+spec fn ex_is_tin(tin: Seq<u8>, v: Point, za: Seq<u8>, zb: Seq<u8>, ra: Point, rb: Point) -> bool {
+    tin == be_bytes(pt_x(abs(v)), 32) + za + zb + xy_bytes(abs(ra)) + xy_bytes(abs(rb))
+}
+// cin = tag || yV || h
+#[verifier::opaque]
+spec fn ex_is_cin(cin: Seq<u8>, tag: u8, v: Point, h: Seq<u8>) -> bool { cin == seq![tag] + be_bytes(pt_y(abs(v)), 32) + h }
+// s = SM3(tag || yV || SM3(tin))
+#[verifier::opaque]
+spec fn ex_is_conf(s: Seq<u8>, tag: u8, v: Point, tin: Seq<u8>) -> bool { s == sm3_spec(seq![tag] + be_bytes(pt_y(abs(v)), 32) + sm3_spec(tin)) }
+
+proof fn ex_st_rpt(r: Seq<u64>, p: Point)
+    requires 1 <= val4(r) < N(), abs(p) == g_smul(val4(r), G())
+    ensures val4(p.z@) != 0
+{ ax_g_order(val4(r)); lemma_small_mod(val4(r) as nat, N() as nat); }
+proof fn ex_st_nz(p: Point)
+    requires abs(p) != Pt::Inf
+    ensures val4(p.z@) != 0
+{ }
+proof fn ex_st_xy(p: Point, a: Point, x: Seq<u64>, y: Seq<u64>)
+    requires abs(p) == (Pt::Aff { x: fe(a.x@), y: fe(a.y@) }), val4(x) == fe(a.x@), val4(y) == fe(a.y@)
+    ensures ex_xy(p, x, y)
+{ reveal(ex_xy); }
+proof fn ex_st_t(t: Seq<u64>, d: Seq<u64>, r: Seq<u64>, xb: Seq<u64>)
+    requires val4(t) == (val4(d) + (val4(r) * val4(xb)) % N()) % N()
+    ensures ex_is_t(t, d, r, xb)
+{ reveal(ex_is_t); }
+proof fn ex_st_point(v: Point, p: Point, pk: Point, peer: Point, own: Point, t: Seq<u64>, xp: Seq<u64>, px: Seq<u64>, py: Seq<u64>,
+        d: Seq<u64>, r: Seq<u64>, xo: Seq<u64>, ox: Seq<u64>, oy: Seq<u64>)
+    requires
+        abs(v) == g_smul(val4(t), abs(p)),
+        abs(p) == g_add(abs(pk), g_smul(val4(xp), abs(peer))),
+        ex_is_xbar(xp, px),
+        ex_xy(peer, px, py),
+        ex_is_t(t, d, r, xo),
+        ex_is_xbar(xo, ox),
+        ex_xy(own, ox, oy),
+    ensures ex_is_shared(v, d, r, own, pk, peer)
+{ reveal(ex_is_xbar); reveal(ex_xy); reveal(ex_is_t); reveal(ex_is_shared); reveal(ex_t); reveal(ex_point); }
+proof fn ex_st_vb(v: Point, a: Point, xb: Seq<u8>, yb: Seq<u8>)
+    requires abs(v) == (Pt::Aff { x: fe(a.x@), y: fe(a.y@) }), xb == be_bytes(fe(a.x@), 32), yb == be_bytes(fe(a.y@), 32)
+    ensures ex_vb(v, xb, yb), xb.len() == 32, yb.len() == 32
+{ reveal(ex_vb); lemma_be_bytes_len(fe(a.x@), 32); lemma_be_bytes_len(fe(a.y@), 32); }
+proof fn ex_st_kin(kin: Seq<u8>, v: Point, xb: Seq<u8>, yb: Seq<u8>, za: Seq<u8>, zb: Seq<u8>)
+    requires ex_vb(v, xb, yb), kin =~= xb + yb + za + zb
+    ensures ex_is_kin(kin, v, za, zb), kin.len() == 64 + za.len() + zb.len()
+{ reveal(ex_vb); reveal(ex_is_kin); ex_lemma_lens(abs(v)); }
+proof fn ex_st_key(k: Seq<u8>, kin: Seq<u8>, v: Point, za: Seq<u8>, zb: Seq<u8>, klen: nat)
+    requires ex_is_kin(kin, v, za, zb), k == s_kdf(kin, klen)
+    ensures ex_is_key(k, v, za, zb, klen)
+{ reveal(ex_is_key); reveal(ex_is_kin); }
+proof fn ex_st_tin(tin: Seq<u8>, v: Point, xb: Seq<u8>, yb: Seq<u8>, za: Seq<u8>, zb: Seq<u8>, ra: Point, x1: Seq<u64>, y1: Seq<u64>, rb: Point, x2: Seq<u64>, y2: Seq<u64>)
+    requires
+        ex_vb(v, xb, yb),
+        ex_xy(ra, x1, y1),
+        ex_xy(rb, x2, y2),
+        tin =~= xb + za + zb + be_bytes(val4(x1), 32) + be_bytes(val4(y1), 32) + be_bytes(val4(x2), 32) + be_bytes(val4(y2), 32),
+    ensures ex_is_tin(tin, v, za, zb, ra, rb), tin.len() == 160 + za.len() + zb.len()
+{
+    reveal(ex_vb); reveal(ex_xy); reveal(ex_is_tin);
+    ex_lemma_lens(abs(v)); ex_lemma_lens(abs(ra)); ex_lemma_lens(abs(rb));
+    assert(tin =~= be_bytes(pt_x(abs(v)), 32) + za + zb + xy_bytes(abs(ra)) + xy_bytes(abs(rb)));
+}
+proof fn ex_st_cin(cin: Seq<u8>, tag: u8, v: Point, xb: Seq<u8>, yb: Seq<u8>, h: Seq<u8>)
+    requires ex_vb(v, xb, yb), cin =~= seq![tag] + yb + h
+    ensures ex_is_cin(cin, tag, v, h), cin.len() == 33 + h.len()
+{ reveal(ex_vb); reveal(ex_is_cin); ex_lemma_lens(abs(v)); }
+proof fn ex_st_conf(s: Seq<u8>, cin: Seq<u8>, tag: u8, v: Point, tin: Seq<u8>)
+    requires ex_is_cin(cin, tag, v, sm3_spec(tin)), s == sm3_spec(cin)
+    ensures ex_is_conf(s, tag, v, tin)
+{ reveal(ex_is_cin); reveal(ex_is_conf); }
+// ---- the value-level conjuncts of the postconditions, one lemma each ----
+proof fn ex_fin_key(v: Point, d: Seq<u64>, r: Seq<u64>, own: Point, pk: Point, peer: Point, za: Seq<u8>, zb: Seq<u8>, klen: nat, k: Seq<u8>)
+    requires
+        ex_is_shared(v, d, r, own, pk, peer),
+        ex_is_key(k, v, za, zb, klen),
+    ensures ({ let w = ex_point(ex_t(val4(d), val4(r), abs(own)), abs(pk), abs(peer)); abs(v) == w && k == ex_key(w, za, zb, klen) })
+{ reveal(ex_is_shared); reveal(ex_is_key); reveal(ex_key); }
+proof fn ex_fin_conf4(v: Point, first: Point, second: Point, za: Seq<u8>, zb: Seq<u8>, tin: Seq<u8>, tag: u8, s: Seq<u8>)
+    requires
+        ex_is_tin(tin, v, za, zb, first, second),
+        ex_is_conf(s, tag, v, tin),
+    ensures s == ex_conf(tag, abs(v), ex_inner(abs(v), za, zb, abs(first), abs(second)))
+{ reveal(ex_is_tin); reveal(ex_is_conf); reveal(ex_conf); reveal(ex_inner); }
+proof fn ex_fin_conf(v: Point, d: Seq<u64>, r: Seq<u64>, own: Point, pk: Point, peer: Point, first: Point, second: Point,
+        za: Seq<u8>, zb: Seq<u8>, tin: Seq<u8>, tag: u8, s: Seq<u8>)
+    requires
+        ex_is_shared(v, d, r, own, pk, peer),
+        ex_is_tin(tin, v, za, zb, first, second),
+        ex_is_conf(s, tag, v, tin),
+    ensures ({ let w = ex_point(ex_t(val4(d), val4(r), abs(own)), abs(pk), abs(peer));
+        s == ex_conf(tag, w, ex_inner(w, za, zb, abs(first), abs(second))) })
+{ reveal(ex_is_shared); ex_fin_conf4(v, first, second, za, zb, tin, tag, s); }
 //@section code gm-sm2/src/exchange.rs
 #[derive(Debug)]
 struct Exchange {
@@ -171,6 +307,22 @@ struct Exchange {
     rhs_za: [u8; 32],
     rhs_pk: Sm2PublicKey,
 }
+//@props C20
+fn build_ex_pair(
+    klen: usize,
+    first_id: &str,
+    other_id: &str,
+) -> (res: Sm2Result<(Exchange, Exchange)>)
+    requires str_bytes(first_id).len() < 0x1000_0000_0000_0000, str_bytes(other_id).len() < 0x1000_0000_0000_0000,
+    ensures res is Ok ==> 8 * str_bytes(first_id).len() <= 65535 && 8 * str_bytes(other_id).len() <= 65535,
+{
+    let (pk_a, sk_a) = gen_keypair()?;
+    let (pk_b, sk_b) = gen_keypair()?;
+    let user_a = Exchange::new(klen, Some(first_id), &pk_a, &sk_a, Some(other_id), &pk_b)?;
+    let user_b = Exchange::new(klen, Some(other_id), &pk_b, &sk_b, Some(first_id), &pk_a)?;
+    Ok((user_a, user_b))
+}
+//@props C14 C15 C20
 impl Exchange {
     fn new(
         klen: usize,
@@ -239,13 +391,10 @@ impl Exchange {
             final(self).klen == old(self).klen, final(self).za == old(self).za, final(self).sk == old(self).sk,
             final(self).rhs_za == old(self).rhs_za, final(self).rhs_pk == old(self).rhs_pk,
     {
+        hide(val4); hide(fe); hide(abs_pt); hide(on_curve); hide(g_smul); hide(g_add); hide(inv_p); hide(pow_mod); hide(be_bytes); hide(s_kdf); hide(xy_bytes); hide(pt_x); hide(pt_y);
         if !ra_point.is_valid() {
             return Err(Sm2Error::CheckPointErr);
         }
-        proof { ex_lemma_consts(); lemma_params(); lemma_g_on_curve(); }
-        let ghost gd = val4(self.sk.d@);
-        let ghost gra = abs(*ra_point);
-        let ghost gpk = abs(self.rhs_pk.point);
         
         let pow: [u64; 4] = [
             0x0000000000000000,
@@ -253,26 +402,24 @@ impl Exchange {
             0x0000000000000000,
             0x0000000000000000,
         ];
+        proof { assert(val4(pow@) == pow127()) by { reveal(val4); } }
 
         let r2 = random_u256();
         let r2_point = g_mul(&r2);
-        let ghost gr = val4(r2@);
-        let ghost grb = abs(r2_point);
-        proof { ax_g_order(gr); lemma_small_mod(gr as nat, N() as nat); assert(val4(r2_point.z@) != 0); }
+        proof { ex_st_rpt(r2@, r2_point); }
         self.r = Some(r2);
         self.r_point = Some(r2_point);
         let r2_point_affine = r2_point.to_affine_point();
         let x2 = fp_from_mont(&r2_point_affine.x);
         let y2 = fp_from_mont(&r2_point_affine.y);
-        proof {
-            assert(val4(x2@) == pt_x(grb) && val4(y2@) == pt_y(grb));
-            assert(val4(pow@) == pow127());
-            assert(2 * pow127() < N()) by(compute);
-        }
+        proof { ex_st_xy(r2_point, r2_point_affine, x2@, y2@); }
         let x2_b = u256_add(&pow, &u256_bits_and(&x2, &u256_sub(&pow, &SM2_ONE).0)).0;
         proof {
-            assert(val4(x2_b@) == xbar(pt_x(grb))) by { ex_lemma_and127_q(x2@); }
-            lemma_mod_bound(gr * val4(x2_b@), N());
+            assert(ex_is_xbar(x2_b@, x2@) && val4(x2_b@) < N()) by {
+                reveal(ex_is_xbar); reveal(xbar); ex_lemma_consts(); ex_lemma_and127_q(x2@);
+                assert(2 * pow127() < N()) by(compute);
+            }
+            lemma_mod_bound(val4(r2@) * val4(x2_b@), N());
         }
         let t2 = fn_add(
             &self.sk.d,
@@ -281,29 +428,23 @@ impl Exchange {
                 &x2_b,
             ),
         );
+        proof { ex_st_t(t2@, self.sk.d@, r2@, x2_b@); }
 
         let ra_point_affine = ra_point.to_affine_point();
         let x1 = fp_from_mont(&ra_point_affine.x);
         let y1 = fp_from_mont(&ra_point_affine.y);
-        proof {
-            assert(val4(t2@) == ex_t(gd, gr, grb));
-            lemma_mod_bound(gd + (gr * xbar(pt_x(grb))) % N(), N());
-            assert(val4(x1@) == pt_x(gra) && val4(y1@) == pt_y(gra));
-        }
+        proof { ex_st_xy(*ra_point, ra_point_affine, x1@, y1@); }
         let x1_a = u256_add(&pow, &u256_bits_and(&x1, &u256_sub(&pow, &SM2_ONE).0)).0;
-        proof { assert(val4(x1_a@) == xbar(pt_x(gra))) by { ex_lemma_and127_q(x1@); } }
+        proof {
+            assert(ex_is_xbar(x1_a@, x1@)) by { reveal(ex_is_xbar); reveal(xbar); ex_lemma_consts(); ex_lemma_and127_q(x1@); }
+        }
 
         let p = self
             .rhs_pk
             .value()
             .point_add(&ra_point.scalar_mul(&x1_a));
-        proof { assert(valid(p)); }
         let v_point = p.scalar_mul(&t2);
-        let ghost gv = abs(v_point);
-        proof {
-            if val4(p.z@) == 0 { ex_lemma_smul_inf(val4(t2@)); assert(gv == Pt::Inf); }
-            assert(gv != Pt::Inf ==> gv == ex_point(ex_t(gd, gr, grb), gpk, gra));
-        }
+        proof { ex_st_point(v_point, p, self.rhs_pk.point, *ra_point, r2_point, t2@, x1_a@, x1@, y1@, self.sk.d@, r2@, x2_b@, x2@, y2@); }
         if v_point.is_zero() {
             return Err(Sm2Error::ZeroPoint);
         }
@@ -312,6 +453,7 @@ impl Exchange {
         let v_affine_p = v_point.to_affine_point();
         let xv_bytes = fp_from_mont(&v_affine_p.x).to_byte_be();
         let yv_bytes = fp_from_mont(&v_affine_p.y).to_byte_be();
+        proof { ex_st_vb(v_point, v_affine_p, xv_bytes@, yv_bytes@); }
 
         let mut prepend = Vec::new();
         prepend.extend_from_slice(&xv_bytes);
@@ -319,11 +461,9 @@ impl Exchange {
         prepend.extend_from_slice(&self.rhs_za); 
         prepend.extend_from_slice(&self.za); 
 
-        proof {
-            ex_lemma_lens(gv); ex_lemma_lens(gra); ex_lemma_lens(grb);
-            assert(prepend@ =~= xy_bytes(gv) + self.rhs_za@ + self.za@);
-        }
+        proof { ex_st_kin(prepend@, v_point, xv_bytes@, yv_bytes@, self.rhs_za@, self.za@); }
         let k_b = kdf(&prepend, self.klen);
+        proof { ex_st_key(k_b@, prepend@, v_point, self.rhs_za@, self.za@, self.klen as nat); }
         self.k = Some(k_b);
 
         let mut temp: Vec<u8> = Vec::new();
@@ -334,17 +474,18 @@ impl Exchange {
         temp.extend_from_slice(&y1.to_byte_be());
         temp.extend_from_slice(&x2.to_byte_be());
         temp.extend_from_slice(&y2.to_byte_be());
-        proof {
-            assert(temp@ =~= be_bytes(pt_x(gv), 32) + self.rhs_za@ + self.za@ + xy_bytes(gra) + xy_bytes(grb));
-            lemma_sm3_len(temp@);
-        }
+        proof { ex_st_tin(temp@, v_point, xv_bytes@, yv_bytes@, self.rhs_za@, self.za@, *ra_point, x1@, y1@, r2_point, x2@, y2@); }
 
         let mut prepend: Vec<u8> = Vec::new();
         prepend.push(0x02_u8);
         prepend.extend_from_slice(&yv_bytes);
         prepend.extend_from_slice(&sm3_hash(&temp));
         proof {
-            assert(prepend@ =~= seq![2u8] + be_bytes(pt_y(gv), 32) + ex_inner(gv, self.rhs_za@, self.za@, gra, grb));
+            ex_st_cin(prepend@, 2u8, v_point, xv_bytes@, yv_bytes@, sm3_spec(temp@));
+            ex_st_conf(sm3_spec(prepend@), prepend@, 2u8, v_point, temp@);
+            ex_fin_key(v_point, self.sk.d@, r2@, r2_point, self.rhs_pk.point, *ra_point, self.rhs_za@, self.za@, self.klen as nat, self.k->Some_0@);
+            ex_fin_conf(v_point, self.sk.d@, r2@, r2_point, self.rhs_pk.point, *ra_point, *ra_point, r2_point,
+                self.rhs_za@, self.za@, temp@, 2u8, sm3_spec(prepend@));
         }
         Ok((r2_point, sm3_hash(&prepend)))
     }
@@ -363,17 +504,9 @@ impl Exchange {
                 u != Pt::Inf && sb@ == ex_conf(2u8, u, inner) && res->Ok_0@ == ex_conf(3u8, u, inner)
                 && final(self).k is Some && final(self).k->Some_0@ == ex_key(u, old(self).za@, old(self).rhs_za@, old(self).klen as nat) }),
     {
+        hide(val4); hide(fe); hide(abs_pt); hide(on_curve); hide(g_smul); hide(g_add); hide(inv_p); hide(pow_mod); hide(be_bytes); hide(s_kdf); hide(xy_bytes); hide(pt_x); hide(pt_y);
         if !rb_point.is_valid() {
             return Err(Sm2Error::CheckPointErr);
-        }
-        let ghost gd = val4(self.sk.d@);
-        let ghost gr = val4(self.r->Some_0@);
-        let ghost gra = abs(self.r_point->Some_0);
-        let ghost grb = abs(*rb_point);
-        let ghost gpk = abs(self.rhs_pk.point);
-        proof {
-            ex_lemma_consts(); lemma_params(); lemma_g_on_curve();
-            ax_g_order(gr); lemma_small_mod(gr as nat, N() as nat); assert(val4(self.r_point->Some_0.z@) != 0);
         }
         
         let pow: [u64; 4] = [
@@ -382,19 +515,19 @@ impl Exchange {
             0x0000000000000000,
             0x0000000000000000,
         ];
+        proof { assert(val4(pow@) == pow127()) by { reveal(val4); } ex_st_rpt(self.r->Some_0@, self.r_point->Some_0); }
 
         let ra_point_affine = self.r_point.unwrap().to_affine_point();
         let x1 = fp_from_mont(&ra_point_affine.x);
         let y1 = fp_from_mont(&ra_point_affine.y);
-        proof {
-            assert(val4(x1@) == pt_x(gra) && val4(y1@) == pt_y(gra));
-            assert(val4(pow@) == pow127());
-            assert(2 * pow127() < N()) by(compute);
-        }
+        proof { ex_st_xy(self.r_point->Some_0, ra_point_affine, x1@, y1@); }
         let x1_a = u256_add(&pow, &u256_bits_and(&x1, &u256_sub(&pow, &SM2_ONE).0)).0;
         proof {
-            assert(val4(x1_a@) == xbar(pt_x(gra))) by { ex_lemma_and127_q(x1@); }
-            lemma_mod_bound(gr * val4(x1_a@), N());
+            assert(ex_is_xbar(x1_a@, x1@) && val4(x1_a@) < N()) by {
+                reveal(ex_is_xbar); reveal(xbar); ex_lemma_consts(); ex_lemma_and127_q(x1@);
+                assert(2 * pow127() < N()) by(compute);
+            }
+            lemma_mod_bound(val4(self.r->Some_0@) * val4(x1_a@), N());
         }
         let t_a = fn_add(
             &self.sk.d,
@@ -403,28 +536,22 @@ impl Exchange {
                 &x1_a,
             ),
         );
+        proof { ex_st_t(t_a@, self.sk.d@, self.r->Some_0@, x1_a@); }
 
         let rb_point_affine = rb_point.to_affine_point();
         let x2 = fp_from_mont(&rb_point_affine.x);
         let y2 = fp_from_mont(&rb_point_affine.y);
-        proof {
-            assert(val4(t_a@) == ex_t(gd, gr, gra));
-            lemma_mod_bound(gd + (gr * xbar(pt_x(gra))) % N(), N());
-            assert(val4(x2@) == pt_x(grb) && val4(y2@) == pt_y(grb));
-        }
+        proof { ex_st_xy(*rb_point, rb_point_affine, x2@, y2@); }
         let x2_b = u256_add(&pow, &u256_bits_and(&x2, &u256_sub(&pow, &SM2_ONE).0)).0;
-        proof { assert(val4(x2_b@) == xbar(pt_x(grb))) by { ex_lemma_and127_q(x2@); } }
+        proof {
+            assert(ex_is_xbar(x2_b@, x2@)) by { reveal(ex_is_xbar); reveal(xbar); ex_lemma_consts(); ex_lemma_and127_q(x2@); }
+        }
         let p = self
             .rhs_pk
             .value()
             .point_add(&rb_point.scalar_mul(&x2_b));
-        proof { assert(valid(p)); }
         let u_point = p.scalar_mul(&t_a);
-        let ghost gu = abs(u_point);
-        proof {
-            if val4(p.z@) == 0 { ex_lemma_smul_inf(val4(t_a@)); assert(gu == Pt::Inf); }
-            assert(gu != Pt::Inf ==> gu == ex_point(ex_t(gd, gr, gra), gpk, grb));
-        }
+        proof { ex_st_point(u_point, p, self.rhs_pk.point, *rb_point, self.r_point->Some_0, t_a@, x2_b@, x2@, y2@, self.sk.d@, self.r->Some_0@, x1_a@, x1@, y1@); }
         if u_point.is_zero() {
             return Err(Sm2Error::ZeroPoint);
         }
@@ -432,6 +559,7 @@ impl Exchange {
         let u_affine_p = u_point.to_affine_point();
         let xu_bytes = fp_from_mont(&u_affine_p.x).to_byte_be();
         let yu_bytes = fp_from_mont(&u_affine_p.y).to_byte_be();
+        proof { ex_st_vb(u_point, u_affine_p, xu_bytes@, yu_bytes@); }
 
         let mut prepend = Vec::new();
         prepend.extend_from_slice(&xu_bytes);
@@ -439,11 +567,9 @@ impl Exchange {
         prepend.extend_from_slice(&self.za);
         prepend.extend_from_slice(&self.rhs_za);
 
-        proof {
-            ex_lemma_lens(gu); ex_lemma_lens(gra); ex_lemma_lens(grb);
-            assert(prepend@ =~= xy_bytes(gu) + self.za@ + self.rhs_za@);
-        }
+        proof { ex_st_kin(prepend@, u_point, xu_bytes@, yu_bytes@, self.za@, self.rhs_za@); }
         let k_a = kdf(&prepend, self.klen);
+        proof { ex_st_key(k_a@, prepend@, u_point, self.za@, self.rhs_za@, self.klen as nat); }
         self.k = Some(k_a);
 
         let mut temp: Vec<u8> = Vec::new();
@@ -454,21 +580,17 @@ impl Exchange {
         temp.extend_from_slice(&y1.to_byte_be());
         temp.extend_from_slice(&x2.to_byte_be());
         temp.extend_from_slice(&y2.to_byte_be());
-        proof {
-            assert(temp@ =~= be_bytes(pt_x(gu), 32) + self.za@ + self.rhs_za@ + xy_bytes(gra) + xy_bytes(grb));
-            lemma_sm3_len(temp@);
-        }
+        proof { ex_st_tin(temp@, u_point, xu_bytes@, yu_bytes@, self.za@, self.rhs_za@, self.r_point->Some_0, x1@, y1@, *rb_point, x2@, y2@); }
         let temp_hash = sm3_hash(&temp);
 
         let mut prepend: Vec<u8> = Vec::new();
         prepend.push(0x02_u8);
         prepend.extend_from_slice(&yu_bytes);
         prepend.extend_from_slice(&temp_hash);
-        proof {
-            assert(prepend@ =~= seq![2u8] + be_bytes(pt_y(gu), 32) + ex_inner(gu, self.za@, self.rhs_za@, gra, grb));
-        }
+        proof { ex_st_cin(prepend@, 2u8, u_point, xu_bytes@, yu_bytes@, sm3_spec(temp@)); }
 
         let s1 = sm3_hash(&prepend);
+        proof { ex_st_conf(s1@, prepend@, 2u8, u_point, temp@); }
         if shim_ne32(&s1, &sb) {
             return Err(Sm2Error::HashNotEqual);
         }
@@ -478,7 +600,13 @@ impl Exchange {
         prepend.extend_from_slice(&yu_bytes);
         prepend.extend_from_slice(&temp_hash);
         proof {
-            assert(prepend@ =~= seq![3u8] + be_bytes(pt_y(gu), 32) + ex_inner(gu, self.za@, self.rhs_za@, gra, grb));
+            ex_st_cin(prepend@, 3u8, u_point, xu_bytes@, yu_bytes@, sm3_spec(temp@));
+            ex_st_conf(sm3_spec(prepend@), prepend@, 3u8, u_point, temp@);
+            ex_fin_key(u_point, self.sk.d@, self.r->Some_0@, self.r_point->Some_0, self.rhs_pk.point, *rb_point, self.za@, self.rhs_za@, self.klen as nat, self.k->Some_0@);
+            ex_fin_conf(u_point, self.sk.d@, self.r->Some_0@, self.r_point->Some_0, self.rhs_pk.point, *rb_point, self.r_point->Some_0, *rb_point,
+                self.za@, self.rhs_za@, temp@, 2u8, sb@);
+            ex_fin_conf(u_point, self.sk.d@, self.r->Some_0@, self.r_point->Some_0, self.rhs_pk.point, *rb_point, self.r_point->Some_0, *rb_point,
+                self.za@, self.rhs_za@, temp@, 3u8, sm3_spec(prepend@));
         }
         Ok(sm3_hash(&prepend))
     }
@@ -490,17 +618,22 @@ impl Exchange {
         ensures res is Ok,
             res->Ok_0 == (sa@ == ex_conf(3u8, abs(self.v->Some_0), ex_inner(abs(self.v->Some_0), self.rhs_za@, self.za@, abs(*ra_point), abs(self.r_point->Some_0)))),
     {
+        hide(val4); hide(fe); hide(abs_pt); hide(on_curve); hide(g_smul); hide(g_add); hide(inv_p); hide(pow_mod); hide(be_bytes); hide(s_kdf); hide(xy_bytes); hide(pt_x); hide(pt_y);
         let ra_point_affine = ra_point.to_affine_point();
         let x1 = fp_from_mont(&ra_point_affine.x);
         let y1 = fp_from_mont(&ra_point_affine.y);
+        proof { ex_st_xy(*ra_point, ra_point_affine, x1@, y1@); }
 
+        proof { ex_st_nz(self.r_point->Some_0); ex_st_nz(self.v->Some_0); }
         let r2_point_affine = self.r_point.unwrap().to_affine_point();
         let x2 = fp_from_mont(&r2_point_affine.x);
         let y2 = fp_from_mont(&r2_point_affine.y);
+        proof { ex_st_xy(self.r_point->Some_0, r2_point_affine, x2@, y2@); }
 
         let v_point_affine = self.v.unwrap().to_affine_point();
         let xv = fp_from_mont(&v_point_affine.x);
         let yv = fp_from_mont(&v_point_affine.y);
+        proof { ex_st_vb(self.v->Some_0, v_point_affine, be_bytes(val4(xv@), 32), be_bytes(val4(yv@), 32)); }
 
         let mut temp: Vec<u8> = Vec::new();
         temp.extend_from_slice(&xv.to_byte_be());
@@ -510,23 +643,21 @@ impl Exchange {
         temp.extend_from_slice(&y1.to_byte_be());
         temp.extend_from_slice(&x2.to_byte_be());
         temp.extend_from_slice(&y2.to_byte_be());
-        let ghost gv = abs(self.v->Some_0);
-        let ghost gra = abs(*ra_point);
-        let ghost grb = abs(self.r_point->Some_0);
         proof {
-            ex_lemma_lens(gv); ex_lemma_lens(gra); ex_lemma_lens(grb);
-            assert(temp@ =~= be_bytes(pt_x(gv), 32) + self.rhs_za@ + self.za@ + xy_bytes(gra) + xy_bytes(grb));
-            lemma_sm3_len(temp@);
+            ex_st_tin(temp@, self.v->Some_0, be_bytes(val4(xv@), 32), be_bytes(val4(yv@), 32), self.rhs_za@, self.za@,
+                *ra_point, x1@, y1@, self.r_point->Some_0, x2@, y2@);
         }
 
         let mut prepend: Vec<u8> = Vec::new();
         prepend.push(0x03_u8);
         prepend.extend_from_slice(&yv.to_byte_be());
         prepend.extend_from_slice(&sm3_hash(&temp));
-        proof {
-            assert(prepend@ =~= seq![3u8] + be_bytes(pt_y(gv), 32) + ex_inner(gv, self.rhs_za@, self.za@, gra, grb));
-        }
+        proof { ex_st_cin(prepend@, 3u8, self.v->Some_0, be_bytes(val4(xv@), 32), be_bytes(val4(yv@), 32), sm3_spec(temp@)); }
         let s_2 = sm3_hash(&prepend);
+        proof {
+            ex_st_conf(s_2@, prepend@, 3u8, self.v->Some_0, temp@);
+            ex_fin_conf4(self.v->Some_0, *ra_point, self.r_point->Some_0, self.rhs_za@, self.za@, temp@, 3u8, s_2@);
+        }
         Ok(!shim_ne32(&s_2, &sa))
     }
 }
